@@ -366,15 +366,6 @@ def _gen_transitions(rnd, ch, o):
                         ev = rnd.choice(ch['events'])
                         mk(p, None, ev=ev, guard=False)
                         mk(rnd.choice(kids), None, ev=ev, guard=rnd.random() < 0.5)
-    if trans and o['p_twin'] and rnd.random() < (o['p_twin'] if mode == 'clash' else o['p_twin'] / 3):
-        # an exact twin: a second, separately declared transition equal to an existing one in every field (same code
-        # text as well: 'code_id').  Two transitions are two transitions, however alike they look.
-        import copy as _copy
-        b = rnd.choice(trans)
-        d = _copy.deepcopy(b)
-        d['id'] = 't%d' % len(trans)
-        d['code_id'] = b.get('code_id') or b['id']
-        trans.append(d)
     # (d) orth: shared events between regions
     if mode in ('orth', 'order'):
         orths = [n for n in order if st[n]['kind'] == 'orthogonal']
@@ -419,6 +410,15 @@ def _gen_transitions(rnd, ch, o):
         for t in trans:
             if rnd.random() < o['p_active_call']:
                 t['active_call'] = rnd.choice(order)
+    if trans and o['p_twin'] and rnd.random() < (o['p_twin'] if mode == 'clash' else o['p_twin'] / 3):
+        # an exact twin: a second, separately declared transition equal to an existing one in every field (same code
+        # text as well: 'code_id').  Two transitions are two transitions, however alike they look.
+        import copy as _copy
+        b = rnd.choice(trans)
+        d = _copy.deepcopy(b)            # (made last: nothing changes one of the two afterwards)
+        d['id'] = 't%d' % len(trans)
+        d['code_id'] = b.get('code_id') or b['id']
+        trans.append(d)
     rnd.shuffle(trans)
     ch['transitions'] = trans
 
@@ -438,12 +438,18 @@ def _gen_contracts(rnd, ch, o):
                 c[kind].append('%s.%s%d' % (n, kind, k))
                 k += 1
     for t in ch['transitions']:
+        if t.get('code_id'):
+            continue
         c = t['contracts']
         for kind in ('pre', 'post', 'inv'):
             k = 0
             while rnd.random() < p * (0.6 ** k) and k < 3:
                 c[kind].append('%s.%s%d' % (t['id'], kind, k))
                 k += 1
+    byid = {t['id']: t for t in ch['transitions']}
+    for t in ch['transitions']:
+        if t.get('code_id'):            # an exact twin has the very same contract
+            t['contracts'] = {k: list(v) for k, v in byid[t['code_id']]['contracts'].items()}
 
 
 def wellformed(ch):
